@@ -18,7 +18,7 @@ for d in "$VERIF_DIR"/seeded/*/; do
     n=$(basename "$d")
     case "$n" in *"$FILTER"*) ;; *) continue ;; esac
     prop=$(python3 -c "import json,sys; print(json.load(open('$d/meta.json'))['breaks_property'])")
-    oos=$(python3 -c "import json,sys; m=json.load(open('$d/meta.json')); print(int(bool(m.get('out_of_scope') or m.get('thorough_only'))))")
+    oos=$(python3 -c "import json,sys; m=json.load(open('$d/meta.json')); print(int(bool(m.get('out_of_scope') or m.get('thorough_only') or m.get('beyond_search'))))")
     props="$prop"; [ "$ALL" = 1 ] && props="C01 C10 C11 C17 C18"
     git -C "$SCRATCH" apply "$d/patch.diff" || { echo "$n: patch does not apply"; missed=$((missed+1)); continue; }
     for p in $props; do
@@ -26,7 +26,7 @@ for d in "$VERIF_DIR"/seeded/*/; do
         SIM_NO_EVIDENCE=1 "$VERIF_DIR/check" "$p" quick >"$VERIF_DIR/sim/target/sens/seeded-$n-$p.out" 2>&1; rc=$?
         t1=$(date +%s)
         cls=$(grep -m1 '^violation class=' "$VERIF_DIR/sim/target/sens/seeded-$n-$p.out" | cut -c1-170)
-        if [ "$rc" = 1 ]; then verdict="CAUGHT"; elif [ "$oos" = 1 ]; then verdict="quiet(expected: out-of-scope or thorough-only)"; else verdict="quiet(rc=$rc)"; [ "$p" = "$prop" ] && missed=$((missed+1)); fi
+        if [ "$rc" = 1 ]; then verdict="CAUGHT"; elif [ "$oos" = 1 ]; then verdict="quiet(expected: out-of-scope, thorough-only or beyond-search)"; else verdict="quiet(rc=$rc)"; [ "$p" = "$prop" ] && missed=$((missed+1)); fi
         printf '%-6s %-4s %-12s %3ss  %s\n' "$n" "$p" "$verdict" "$((t1-t0))" "$cls"
     done
     git -C "$SCRATCH" checkout -- .
